@@ -65,7 +65,7 @@ def main(tier, write_baseline=False):
     compare_baseline(run, set(run.obligations))
     fails = {}
     if not os.environ.get("VERIF_NO_BOUNDED"):
-        pool = domain.param_pool(TYPES, docs=["the {name}", "The {name} of it.", "first line\nsecond line of the {name}", "ratio: a to b"])
+        pool = domain.param_pool(TYPES, docs=["the {name}", "The {name} of it.", "first line\nsecond line of the {name}", "ratio: a to b", "Gr\u00f6\u00dfe des {name} (Ma\u00df)"])
         irs = list(domain.irs(1, pool, suffix_defaults=True)) + list(domain.irs(3 if tier == "thorough" else 2, pool, sample=250 if tier == "quick" else 2500, seed=run.seed, suffix_defaults=True))
         irs += [ir for ir in domain.irs(1, pool[:8], suffix_defaults=True, returns=(("typ", "int"), ("doc", "the result"), ("default", 5)))]
         irs += [ir for ir in domain.irs(1, pool[:4], suffix_defaults=True, returns=(("typ", "Tuple[int, int]"), ("doc", "the pair"), ("default", "```(alpha, beta)```")))]
